@@ -441,6 +441,9 @@ class TLSConnection(TLSRecordLayer):
                                reqTack, alpn):
 
         self._handshakeStart(client=True)
+        # negotiated anew in every handshake: the object may have carried
+        # another session before (closeSocket=False)
+        self.extendedMasterSecret = False
 
         #Unpack parameters
         srpUsername = None      # srpParams[0]
@@ -2403,6 +2406,9 @@ class TLSConnection(TLSRecordLayer):
                                     sni, dc_key, del_cred):
 
         self._handshakeStart(client=False)
+        # negotiated anew in every handshake: the object may have carried
+        # another session before (closeSocket=False)
+        self.extendedMasterSecret = False
 
         if not settings:
             settings = HandshakeSettings()
